@@ -111,7 +111,7 @@ func runC05(e *Env, c *LibCase) {
 		case "adv":
 			now += op.D
 			e.Stats.SimSeconds += op.D
-			if now >= math.MaxInt32 {
+			if now >= math.MaxUint32-400*86400 {
 				e.Skip("clock-out-of-domain")
 				return
 			}
